@@ -57,19 +57,24 @@ def nearest (num den : Nat) : Float :=
           Float.scaleB (Float.ofNat m) e
     go 2200 ((l : Int) - 52)
 
-/-- `f64::from_str` on the output of `fixed` (sign, digits, optional fraction) -/
+/-- decimal value of a list of digit characters (non-digits are not produced by `fixed`) -/
+def digitsVal (cs : List Char) : Nat := cs.foldl (fun acc c => acc * 10 + (c.toNat - '0'.toNat)) 0
+
+/-- `f64::from_str` on the output of `fixed` (optional sign, digits, optional `.` and fraction digits; the
+    three non-finite spellings).  Written on character lists so that it can be reasoned about. -/
 def parse (s : String) : Float :=
   -- what `fixed` prints for non-finite values is read back as such by `f64::from_str`
   if s == "NaN" then 0.0 / 0.0
   else if s == "inf" then 1.0 / 0.0
   else if s == "-inf" then -1.0 / 0.0
   else
-  let neg := s.startsWith "-"
-  let body := if neg then (s.drop 1).toString else s
-  match body.splitOn "." with
-  | [a] => let v := nearest a.toNat! 1; if neg then -v else v
-  | [a, b] => let v := nearest ((a ++ b).toNat!) (10 ^ b.length); if neg then -v else v
-  | _ => 0.0 / 0.0
+  let cs := s.toList
+  let neg := cs.head? == some '-'
+  let body := if neg then cs.drop 1 else cs
+  let ip := body.takeWhile (· != '.')
+  let fp := (body.dropWhile (· != '.')).drop 1
+  let v := nearest (digitsVal (ip ++ fp)) (10 ^ fp.length)
+  if neg then -v else v
 
 /-- the text `Mesh1D::output(filename, precision)` writes -/
 def output (m : Mesh1 Float Float) (prec : Nat) : String :=
